@@ -848,7 +848,7 @@ class Typestate:
                 for nm in names:
                     if nm.startswith("@"):
                         continue
-                    if nm in words or nm in a:
+                    if nm in words or (not nm.isidentifier() and nm in a):
                         kill = True
                 if not kill:
                     kept.append((a, v))
